@@ -3,9 +3,8 @@
 
    What is transcribed (pinned tree):
    * compiler.go:386-412  claimOrCopy: a temporary is claimed, anything else is deep-copied.
-   * compiler.go:2306-2335 VisitAssignStmt: evaluate the right side, THEN free the old value of the
-     target, THEN claim/copy (so `Speichere a in b` with a and b the same storage copies from freed
-     storage: error class ESelfAssign below); text/list element assignment is in place.
+   * compiler.go VisitAssignStmt: evaluate the right side, copy it if it is not a temporary, THEN
+     free the old value of the target, THEN claim; text/list element assignment is in place.
    * compiler.go:2048-2068 call site: Referenz parameter = address of the caller's variable; a value
      parameter of non-primitive type is claimed/copied by the caller into storage the callee frees —
      unless (-O2) the callee's parameter is judged constant: then the callee receives the caller's
@@ -131,7 +130,6 @@ Inductive slot := VInt (z : Z) | VPtr (l : nat) | VDead.
 Inductive err :=
 | EStuck         (* ill-formed program (unknown name, wrong kind of value) *)
 | EUaf           (* a freed buffer was read, written or freed again *)
-| ESelfAssign    (* assignment whose source is the target's own storage: freed, then copied from *)
 | EBounds        (* Laufzeitfehler: index outside 1..length *)
 | EFuel.
 Inductive res (A : Type) := Ok (a : A) | Er (e : err).
@@ -293,18 +291,18 @@ Definition do_decl (e : env) (x : name) (ex : expr) (st : state) : res (env * st
   do st4 <- end_stmt st3;
   Ok ((x, a) :: e, st4).
 
-(* VisitAssignStmt after the right side has been evaluated to v *)
+(* VisitAssignStmt after the right side has been evaluated to v: a non-temporary value is copied
+   BEFORE the old value of the target is freed (so `Speichere t in t.` and assignments between
+   aliases are fine), a temporary is claimed *)
 Definition store_value (a : nat) (v : rv) (st : state) : res state :=
   do s <- get_slot a st;
   match s, v with
   | VInt _, RInt z => Ok (set_slot a (VInt z) st)
   | VPtr lold, RSeq l tmp =>
-      if negb tmp && Nat.eqb l lold then Er ESelfAssign
-      else
-        do st1 <- free lold st;
-        do r <- claim_or_copy l tmp st1;
-        let '(l', st2) := r in
-        Ok (set_slot a (VPtr l') st2)
+      do r <- claim_or_copy l tmp st;
+      let '(l', st1) := r in
+      do st2 <- free lold st1;
+      Ok (set_slot a (VPtr l') st2)
   | _, _ => Er EStuck
   end.
 
